@@ -4,7 +4,9 @@ from vf.common import task
 LEVEL = "proof"
 LEVEL_TEXT = ("Per-width deductive proof on the real StridedInterval class with symbolic fields: joins contain both operands, meets contain every "
               "common member, eval/min/max/cardinality/solution agree with the member set (stated over all 2^w candidate members).  Input classes "
-              "listed as known findings are excluded by their stated class and the complement is proved.")
+              "listed as known findings are excluded by their stated class and the complement is proved.  For the meets, the input classes on which "
+              "intersection() calls its Diophantine helper outside the helper's documented assumption (vf/contracts/si_unproved_classes.json) are NOT "
+              "proved and not claimed to fail; they are listed in the evidence assumptions.")
 TECHNIQUE = "contract-based deductive verification (pyvc symbolic execution of the real class, VCs by z3)"
 M = "vf.contracts.si"
 JOINS = ["union", "pseudo_join", "least_upper_bound", "widen"]
